@@ -28,7 +28,9 @@ SeqsOf(n) == IF n = 0 THEN {<<>>}
                   IN prev \cup {Append(q, s) : q \in {p \in prev : Len(p) = n - 1}, s \in Slots}
 Sets == {q \in SeqsOf(MaxSet) : Len(q) >= 1 /\ \A i, j \in 1..Len(q) : i # j => q[i] # q[j]}
 
-Sers == {"compact", "flattened", "general"}
+\* "7797compact"/"7797json": the RFC 7797 entry points with "b64": false (their own serialize/deserialize code)
+Sers == {"compact", "flattened", "general"} \cup (IF Side = "jws" THEN {"7797compact", "7797json"} ELSE {})
+IsCompact(ser) == ser \in {"compact", "7797compact"}
 \* kid selector: "absent", "unknown", or the index of a key of the set
 KidSels(q) == {"absent", "unknown"} \cup {ToString(i) : i \in 1..Len(q)}
 IdxOf(sel) == CHOOSE i \in 1..3 : ToString(i) = sel
@@ -38,7 +40,7 @@ Scn(op, a, q, sel, pos, ser, how, kids, signer) ==
   [op |-> op, alg |-> a, set |-> q, kid |-> sel, pos |-> pos, ser |-> ser, how |-> how, kids |-> kids, signer |-> signer]
 
 \* where joserfc records the kid of a picked key
-WriteBackPos(ser) == IF ser = "compact" THEN "protected" ELSE IF Side = "jws" THEN "unprotected" ELSE "recipient"
+WriteBackPos(ser) == IF IsCompact(ser) THEN "protected" ELSE IF Side = "jws" THEN "unprotected" ELSE "recipient"
 
 \* ------------------------------------------------------------------ layer D
 \* produce: the set of key indices that may end up being used, and the outcome
@@ -65,7 +67,7 @@ HowKids == {<<"set", "explicit">>, <<"callable", "thumbprint">>, <<"set", "thumb
 Init ==
   /\ pc = "resolve" /\ used = 0 /\ out = "none" /\ recorded = "none"
   /\ \E q \in Sets, a \in Algs, ser \in Sers, hk \in HowKids :
-       \E sel \in KidSels(q), pos \in (IF ser = "compact" THEN {"protected"} ELSE {"protected", "unprotected"}) :
+       \E sel \in KidSels(q), pos \in (IF IsCompact(ser) THEN {"protected"} ELSE {"protected", "unprotected"}) :
           \/ scn = Scn("produce", a, q, sel, pos, ser, hk[1], hk[2], 0)
           \/ \E sg \in Suited(q, a) : scn = Scn("consume", a, q, sel, pos, ser, hk[1], hk[2], sg)
 
